@@ -97,11 +97,13 @@ class StripWhitespaceFilter:
 
     def _stripws_identifierlist(self, tlist):
         # Removes newlines before commas, see issue140
-        last_nl = None
+        last_nl = []
         for token in list(tlist.tokens):
             if last_nl and token.ttype is T.Punctuation and token.value == ',':
-                tlist.tokens.remove(last_nl)
-            last_nl = token if token.is_whitespace else None
+                # whitespace is lexed one character per token: drop the whole run
+                for ws in last_nl:
+                    tlist.tokens.remove(ws)
+            last_nl = last_nl + [token] if token.is_whitespace else []
 
             # next_ = tlist.token_next(token, skip_ws=False)
             # if (next_ and not next_.is_whitespace and
